@@ -87,7 +87,11 @@ static void prop(Ctx &c) {
             if (c.chance(3, 4)) add("Content-Type: application/octet-stream\r\n");
             uint64_t k = c.draw(6); uint64_t a = 0, b = 0; bool have = true;
             if (k <= 1 && p < rq.size()) { a = rq[p].s; b = rq[p].e; } else if (k == 2) { a = c.draw(5000); b = c.draw(5000); } else if (k == 3) { a = c.u64(); b = c.u64(); } else if (k == 4) have = false; else { a = 5; b = 4; }
-            if (have) { if (k == 3 && c.boolean()) add("Content-Range: bytes 99999999999999999999-99999999999999999999999/1\r\n"); else add("Content-Range: bytes " + std::to_string(a) + "-" + std::to_string(b) + "/" + std::to_string(B.file.size()) + "\r\n"); }
+            if (have && c.gver >= 2 && c.rarely(5)) {   // numbers of 20..300 digits: zero-padded correct offsets, or all nines
+                static const size_t nd[] = {20, 23, 24, 25, 26, 40, 64, 300}; size_t w1 = nd[c.pick(8)], w2 = nd[c.pick(8)]; bool pad = c.boolean();
+                auto num = [&](uint64_t v, size_t w) { std::string t = pad ? std::to_string(v) : std::string(); while (t.size() < w) t = (pad ? "0" : "9") + t; return t; };
+                add("Content-Range: bytes " + num(a, w1) + "-" + num(b, w2) + "/" + std::to_string(B.file.size()) + "\r\n"); rd << "(long-numbers) ";
+            } else if (have) { if (k == 3 && c.boolean()) add("Content-Range: bytes 99999999999999999999-99999999999999999999999/1\r\n"); else add("Content-Range: bytes " + std::to_string(a) + "-" + std::to_string(b) + "/" + std::to_string(B.file.size()) + "\r\n"); }
             if (c.chance(5, 6)) add("\r\n");
             size_t plen = k <= 1 && p < rq.size() && c.chance(3, 4) ? (size_t)(rq[p].e - rq[p].s + 1) : c.skewed(400);
             if (k <= 1 && p < rq.size() && c.chance(3, 4) && rq[p].s + plen <= B.file.size()) body.insert(body.end(), B.file.begin() + rq[p].s, B.file.begin() + rq[p].s + plen); else { Bytes g = c.bytes(plen); body.insert(body.end(), g.begin(), g.end()); }
@@ -100,8 +104,18 @@ static void prop(Ctx &c) {
     c.label(passthrough ? "pass-through" : "transport");
 
     dl::Response resp; resp.header_lines = hl; resp.body = body;
+    // a header line that arrives AFTER some of the body (a trailer, a repeated Content-Type, a retried response on the same context)
+    std::string late_line; size_t late_after = 0;
+    if (c.gver >= 2 && c.rarely(4)) { std::string bd = c.boolean() ? srv.style.boundary : fuzz_boundary(c); late_line = "Content-Type: multipart/byteranges; boundary=" + bd + "\r\n"; late_after = c.draw(6); c.label("late-boundary-header"); }
     bool accepted;
-    if (!clear_continue) accepted = dl::deliver(d, resp, cuts, zck_write_chunk_cb, nullptr, false);
+    if (!late_line.empty()) {
+        accepted = true; size_t k = 0; bool stop = false;
+        for (auto &l : resp.header_lines) { std::string t = l; if (zck_header_cb((char *)t.data(), 1, t.size(), d) != t.size()) { accepted = false; if (clear_continue) (void)!zck_clear_error(z); else { stop = true; break; } } }
+        for (auto &f : dl::fragments(resp.body.size(), cuts)) { if (stop) break;
+            if (k++ == late_after) { std::string t = late_line; if (zck_header_cb((char *)t.data(), 1, t.size(), d) != t.size()) { accepted = false; if (clear_continue) (void)!zck_clear_error(z); else break; } }
+            Bytes tmp(resp.body.begin() + f.first, resp.body.begin() + f.first + f.second);
+            if (zck_write_chunk_cb(tmp.data(), 1, tmp.size(), d) != tmp.size()) { accepted = false; if (clear_continue) (void)!zck_clear_error(z); else break; } }
+    } else if (!clear_continue) accepted = dl::deliver(d, resp, cuts, zck_write_chunk_cb, nullptr, false);
     else {
         accepted = true; c.label("clear-error-and-continue");
         for (auto &l : resp.header_lines) { std::string t = l; if (zck_header_cb((char *)t.data(), 1, t.size(), d) != t.size()) { accepted = false; (void)!zck_clear_error(z); } }
